@@ -8,7 +8,7 @@ ALPHABET = ["EQ", "EB", "HH", "SD", "XS", "GE", "UE", "NA", "@", "#", "<", ">", 
 EXPAND = {"EQ": '\\"', "EB": "\\\\", "HH": "^^", "SD": " .", "XS": "xsd:", "GE": "geo:", "UE": "\\u00E9", "NA": "é"}
 IRIS = {"i1": "http://a.b/c#d", "i2": "urn:x:y_z@w", "i3": "http://a.b/p_q", "dt": "http://u.v/dt#t"}
 BNODES = {"b1": "_:b1", "b2": "_:x_2"}
-SUFFIX = {"none": "", "lang": "@en", "langreg": "@en-GB", "dt": "^^<%s>" % IRIS["dt"]}
+SUFFIX = {"none": "", "lang": "@en", "langreg": "@en-GB", "langnum": "@es-419", "dt": "^^<%s>" % IRIS["dt"]}
 SEPS = {"sp": " ", "tab": "\t", "sp2": "  "}
 
 
